@@ -939,6 +939,10 @@ class Exec:
             return False
         if isinstance(l, (int, str, bool, Fraction)) and isinstance(r, (int, str, bool, Fraction)):
             return l == r
+        if z3.is_expr(l) and z3.is_bool(l) and isinstance(r, bool):
+            return l if r else z3.Not(l)
+        if z3.is_expr(r) and z3.is_bool(r) and isinstance(l, bool):
+            return r if l else z3.Not(r)
         if isinstance(l, TypeRef) and isinstance(r, TypeRef):
             return l.name == r.name
         if z3.is_expr(l) or z3.is_expr(r):
